@@ -179,7 +179,7 @@ func FuncBuilder(env *Zlisp, name string,
 	sfun := gen.env.MakeFunction(gen.funcname, nargs, varargs, nil, orig)
 	sfun.SetFormalSymbols(argsyms)
 	gen.knownFunctions[symN.number] = sfun
-	if rebindsOwnName(funcName, funcargs, body) {
+	if rebindsOwnName(env, funcName, funcargs, body) {
 		gen.funcname = ""
 	}
 
